@@ -744,7 +744,37 @@ lshift = _arith('LSHIFT', lambda x, y: x << y)
 rshift = _arith('RSHIFT', lambda x, y: x >> y)
 bitand = _arith('BITAND', lambda x, y: x & y)
 bitor = _arith('BITOR', lambda x, y: x | y)
-bitxor = _arith('BITXOR', lambda x, y: x ^ y)
+_bitxor2 = _arith('BITXOR', lambda x, y: x ^ y)
+
+
+def bitxor(a, b):
+    """xor on integers is associative and commutative: nested xors are kept flat (right-nested, operands in one order) with
+    their integer constants folded into one, so that `(x ^ g1) ^ g2` and `x ^ (g1 ^ g2)` are one term"""
+    r = _bitxor2(a, b)
+    if not (is_op(r, 'BITXOR') and len(r) == 4 and (is_op(r[2], 'BITXOR') or is_op(r[3], 'BITXOR'))):
+        return r
+    ops, stack = [], [r]
+    while stack:
+        x = stack.pop()
+        if is_op(x, 'BITXOR') and len(x) == 4:
+            stack.extend([x[3], x[2]])
+        else:
+            ops.append(x)
+    consts = [x for x in ops if is_const(x) and type(x[1]) is int]
+    rest = [x for x in ops if not (is_const(x) and type(x[1]) is int)]
+    if any(is_const(x) for x in rest) or not (consts or any(_int_typed(x) for x in rest)):
+        return r
+    c = 0
+    for x in consts:
+        c ^= x[1]
+    rest = sorted(rest, key=repr)
+    parts = ([const(c)] if c else []) + rest
+    if not parts:
+        return const(0)
+    acc = parts[-1]
+    for x in reversed(parts[:-1]):
+        acc = ('op', 'BITXOR', x, acc)
+    return acc
 
 
 def mul(a, b):
